@@ -1909,7 +1909,11 @@ func (h *fsHandler) openFSFile(filePath string, mustCompress bool, fileEncoding 
 	}
 	filePathOriginal := filePath
 	if mustCompress {
-		filePath += h.compressedFileSuffixes[fileEncoding]
+		// The compressed sibling lives under CompressRoot, which is where
+		// compressAndOpenFSFile creates it. Looking for it next to the original
+		// never finds it when CompressRoot differs from Root, and a stale
+		// compressed file is then served forever after the original has changed.
+		filePath = h.filePathToCompressed(filePath) + h.compressedFileSuffixes[fileEncoding]
 	}
 	vhook("fs.open", h, filePath, 0, 0)
 	f, err := h.filesystem.Open(filePath)
